@@ -19,7 +19,7 @@ RULE = ('the instruction table of C04 (integer core) plus MMX/SSE register and m
         'mapped to their parent, memory cells to byte intervals evaluated on the pre-state. A case = (instance, base state); non-trivial = at least one dependency or one modified location '
         'was witnessed on the CPU.')
 ASSUMPTIONS = ['the host CPU under ptrace single-step is the reference; faulting steps are excluded', 'only architecturally defined outputs witness a read dependency (undefined flags are ignored as outputs); '
-               'every flag the CPU changes counts as written', 'x87 state is not probed']
+               'every flag the CPU changes counts as written', 'x87 registers hold finite normal values with all exceptions masked (the default control word); TOP is 0 initially; a register tagged empty after the step is not an output']
 
 FLAGS = ['cf', 'pf', 'af', 'zf', 'nf', 'of', 'df']
 
@@ -41,6 +41,54 @@ def sse_instances():
             out.append(dict(text='%s %s' % (n, ops), mn=n, size=32, form=re.sub(r'[0-9]', '', ops.replace('XMMWORD PTR [esi]', 'm128').replace('QWORD PTR [esi]', 'm64').replace('DWORD PTR [esi]', 'm32')).replace(' ', ''),
                             cls='-', bases=list(bases), idx=[], extra={'sse': True, 'fps': fps}))
     return out
+
+
+def x87_instances():
+    """x87 register-stack and memory forms. extra: x87=True, tag = abridged tag byte of the initial state (0x7f: ST7 empty, so
+    that a push is legal), cc=True when the condition codes C0..C3 are the instruction's output."""
+    out = []
+
+    def add(text, form, bases=(), tag=0xff, cc=False, size=32):
+        out.append(dict(text=text, mn=text.split()[0], size=size, form=form, cls='-', bases=list(bases), idx=[], extra={'x87': True, 'tag': tag, 'cc': cc}))
+    for mn in ('fadd', 'fsub', 'fsubr', 'fmul', 'fdiv', 'fdivr'):
+        add('%s st, st(2)' % mn, 'st,st(i)'); add('%s st(2), st' % mn, 'st(i),st'); add('%s st(5), st' % mn, 'st(i),st'); add('%s st, st(0)' % mn, 'st,st(0)')
+        add('%s st, st(7)' % mn, 'st,st(i)'); add('%s st(1), st' % mn, 'st(i),st')
+        add('%sp st(2), st' % mn, 'p:st(i),st'); add('%sp st(1), st' % mn, 'p:st(1),st')
+        add('%s DWORD PTR [esi]' % mn, 'm32', bases=['esi']); add('%s QWORD PTR [esi]' % mn, 'm64', bases=['esi'])
+        add('fi%s DWORD PTR [esi]' % mn[1:], 'mi32', bases=['esi']); add('fi%s WORD PTR [esi]' % mn[1:], 'mi16', bases=['esi'])
+    for t in ('fxch st(3)', 'fxch st(1)', 'fxch st(7)'):
+        add(t, 'st(i)')
+    for t in ('fabs', 'fchs', 'fsqrt', 'frndint', 'fscale', 'fprem', 'fprem1', 'f2xm1', 'fsin', 'fcos', 'fxtract', 'fnop'):
+        add(t, 'none', tag=0x7f if t == 'fxtract' else 0xff)
+    for t in ('fyl2x', 'fpatan', 'fyl2xp1'):
+        add(t, 'none-pop')
+    for t in ('fld st(2)', 'fld st(0)', 'fld st(6)'):
+        add(t, 'push:st(i)', tag=0x7f)
+    for kw, f in (('DWORD', 'm32'), ('QWORD', 'm64'), ('TBYTE', 'm80')):
+        add('fld %s PTR [esi]' % kw, 'push:' + f, bases=['esi'], tag=0x7f)
+    for kw, f in (('WORD', 'mi16'), ('DWORD', 'mi32'), ('QWORD', 'mi64')):
+        add('fild %s PTR [esi]' % kw, 'push:' + f, bases=['esi'], tag=0x7f)
+    for t in ('fld1', 'fldz', 'fldpi', 'fldl2e', 'fldl2t', 'fldlg2', 'fldln2'):
+        add(t, 'push:const', tag=0x7f)
+    add('fst st(3)', 'st(i)'); add('fstp st(3)', 'p:st(i)'); add('fstp st(0)', 'p:st(0)'); add('fst st(7)', 'st(i)')
+    for kw, f in (('DWORD', 'm32'), ('QWORD', 'm64')):
+        add('fst %s PTR [edi+8]' % kw, f, bases=['edi']); add('fstp %s PTR [edi+8]' % kw, 'p:' + f, bases=['edi'])
+    add('fstp TBYTE PTR [edi+8]', 'p:m80', bases=['edi'])
+    for kw, f in (('WORD', 'mi16'), ('DWORD', 'mi32')):
+        add('fist %s PTR [edi+8]' % kw, f, bases=['edi']); add('fistp %s PTR [edi+8]' % kw, 'p:' + f, bases=['edi']); add('fisttp %s PTR [edi+8]' % kw, 'p:tt' + f, bases=['edi'])
+    add('fistp QWORD PTR [edi+8]', 'p:mi64', bases=['edi'])
+    for t in ('fcom st(2)', 'fcomp st(2)', 'fcompp', 'fucom st(2)', 'fucomp st(2)', 'fucompp', 'ftst', 'fxam', 'fcom st(1)', 'fucom st(5)'):
+        add(t, 'cmp' if 'p' not in t.split()[0][3:] else 'cmp-pop', cc=True)
+    add('fcom DWORD PTR [esi]', 'cmp-m32', bases=['esi'], cc=True); add('fcomp QWORD PTR [esi]', 'cmp-pop-m64', bases=['esi'], cc=True); add('ficom WORD PTR [esi]', 'cmp-mi16', bases=['esi'], cc=True)
+    for t in ('fcomi st, st(2)', 'fucomi st, st(2)', 'fcomip st, st(2)', 'fucomip st, st(3)', 'fcomi st, st(0)'):
+        add(t, 'cmpi' if not t.split()[0].endswith('p') else 'cmpi-pop')
+    for cc in ('b', 'e', 'be', 'u', 'nb', 'ne', 'nbe', 'nu'):
+        add('fcmov%s st, st(2)' % cc, 'st,st(i)'); add('fcmov%s st, st(6)' % cc, 'st,st(i)')
+    add('fincstp', 'rotate'); add('fdecstp', 'rotate'); add('ffree st(2)', 'st(i)')
+    return out
+
+
+X87_VALUES = [1.5, -2.25, 3.0, 0.5, -7.0, 10.0, 100.5, -0.125, 2.0, 1.0, 0.75, -3.5, 6.0, 12.0, 0.0, 1e10, -1e-5, 255.0, 65536.0, 1.25]
 
 
 def parent(name):
@@ -126,7 +174,7 @@ def mem_probe_addrs(inst, regs, hb=None):
     if m:
         b, i, s, d = m.groups()
         ea = regs[b] + (regs[i] * int(s) if i else 0) + (int(d) if d else 0)
-        width = 16 if 'XMMWORD' in inst['text'] else (8 if 'QWORD' in inst['text'] else (1 if 'BYTE' in inst['text'] else (2 if re.search(r'\bWORD', inst['text']) else 4)))
+        width = 16 if 'XMMWORD' in inst['text'] else (10 if 'TBYTE' in inst['text'] else (8 if 'QWORD' in inst['text'] else (1 if 'BYTE' in inst['text'] else (2 if re.search(r'\bWORD', inst['text']) else 4))))
         out += [(ea + k) & 0xffffffff for k in range(width)]
         if inst['extra'].get('bitreg'):
             out += [(ea + k) & 0xffffffff for k in range(-16, 20)]
@@ -144,8 +192,26 @@ def mem_probe_addrs(inst, regs, hb=None):
     return [a for a in dict.fromkeys(out) if O.HOT_ADDR <= a < O.HOT_ADDR + O.HOT]
 
 
-def outputs(cpu, undef, with_fp):
+def x87_view(cpu):
+    """(list of ST(i) bytes or None when the register is tagged empty after the step, dict of condition codes)."""
+    top = (cpu['swd'] >> 11) & 7
+    st = []
+    for i in range(8):
+        phys = (top + i) & 7
+        st.append(cpu['st'][10 * i:10 * i + 10] if (cpu['ftw'] >> phys) & 1 else None)
+    swd = cpu['swd']
+    return st, {'c0': (swd >> 8) & 1, 'c1': (swd >> 9) & 1, 'c2': (swd >> 10) & 1, 'c3': (swd >> 14) & 1}
+
+
+def outputs(cpu, undef, with_fp, x87=None):
     o = {}
+    if x87 is not None:
+        st, cc = x87_view(cpu)
+        for i in range(8):
+            o['x87:st%d' % i] = st[i]
+        if x87.get('cc'):
+            for k_, v_ in cc.items():
+                o['x87:' + k_] = v_
     for i, r in enumerate(O.REGS):
         o['reg:' + r] = cpu['regs'][i]
     fl = O.unpack_eflags(cpu['eflags'])
@@ -188,7 +254,13 @@ def run_instances(sh, insts, nstates, seed):
             if sse:
                 fp = (bytes(rng.getrandbits(8) for _ in range(64)), bytes(rng.getrandbits(8) for _ in range(128)))
             hb = c04.hot_base(inst, regs)
-            base = dict(regs=regs, flags=flags, hot=hot, fp=fp, hb=hb, low=c04.low_kind(inst, regs))
+            x87 = None
+            if inst['extra'].get('x87'):
+                vals = [rng.choice(X87_VALUES) for _ in range(8)]
+                if k % 3 == 1:
+                    vals[0] = abs(vals[0]) or 1.0
+                x87 = (b''.join(O.f80(v) for v in vals), inst['extra']['tag'])
+            base = dict(regs=regs, flags=flags, hot=hot, fp=fp, hb=hb, low=c04.low_kind(inst, regs), x87=x87)
             perts = []
             addr_regs = set(inst['bases'] + inst['idx'] + ['esp'] + list(inst['extra'].get('bases16', ())))
             idx_regs = set(inst['idx'] + list(inst['extra'].get('idx16', ())))
@@ -199,17 +271,26 @@ def run_instances(sh, insts, nstates, seed):
                 for v in vals[:2]:
                     r2 = dict(regs)
                     r2[r] = v & 0xffffffff
-                    perts.append(('reg:' + r, dict(regs=r2, flags=flags, hot=hot, fp=fp)))
+                    perts.append(('reg:' + r, dict(regs=r2, flags=flags, hot=hot, fp=fp, x87=x87)))
             for f in FLAGS + (['ac', 'i_d'] if inst['mn'] in ('pushf', 'pushfd', 'pushfw') else []):
                 f2 = dict(flags)
                 f2[f] = f2.get(f, 0) ^ 1
-                perts.append(('flag:' + f, dict(regs=regs, flags=f2, hot=hot, fp=fp)))
+                perts.append(('flag:' + f, dict(regs=regs, flags=f2, hot=hot, fp=fp, x87=x87)))
             for a in mem_probe_addrs(inst, regs, hb)[:40]:
                 h2 = bytearray(hot)
                 h2[a - hb] ^= 0xff
                 if inst['extra'].get('popf'):
                     h2[a - hb] = hot[a - hb] ^ 0x01 if a == regs['esp'] else hot[a - hb]
-                perts.append(('mem:%d' % a, dict(regs=regs, flags=flags, hot=bytes(h2), fp=fp)))
+                perts.append(('mem:%d' % a, dict(regs=regs, flags=flags, hot=bytes(h2), fp=fp, x87=x87)))
+            if x87:
+                for i_ in range(8):
+                    if not (x87[1] >> i_) & 1:
+                        continue          # tagged empty: its content is not an input
+                    cur = x87[0][10 * i_:10 * i_ + 10]
+                    for alt in (O.f80(4.5), O.f80(-9.0)):
+                        if alt != cur:
+                            break
+                    perts.append(('x87:st%d' % i_, dict(regs=regs, flags=flags, hot=hot, fp=fp, x87=(x87[0][:10 * i_] + alt + x87[0][10 * i_ + 10:], x87[1]))))
             if sse:
                 probe_fp = list(inst['extra']['fps']) + ['xmm5', 'mm6']
                 for name in probe_fp:
@@ -224,7 +305,7 @@ def run_instances(sh, insts, nstates, seed):
                     perts.append(('fp:' + name, dict(regs=regs, flags=flags, hot=hot, fp=(bytes(mmb), bytes(xmb)))))
             plan.append((inst, g, ins, base, perts, len(cases)))
             for st in [base] + [p[1] for p in perts]:
-                cases.append(dict(code=g, regs=[st['regs'][r] for r in O.REGS], eflags=O.pack_eflags(st['flags']), hot=st['hot'], fp=st['fp'], low=base['low']))
+                cases.append(dict(code=g, regs=[st['regs'][r] for r in O.REGS], eflags=O.pack_eflags(st['flags']), hot=st['hot'], fp=st['fp'], low=base['low'], x87=st.get('x87')))
     if not cases:
         return
     res = []
@@ -248,8 +329,9 @@ def run_instances(sh, insts, nstates, seed):
         undef = c04.undefined_flags(inst, base['regs'], None) if not sse else set()
         if inst['mn'] in ('bsf', 'bsr', 'shld', 'shrd', 'div', 'idiv'):
             undef = set(FLAGS) - ({'zf'} if inst['mn'] in ('bsf', 'bsr') else set())
-        o0 = outputs(cpu0, undef, sse)
-        fam = ('MMX-SSE:' + re.sub(r'(ps|pd|ss|sd)$', '#', inst['mn'])) if sse else re.sub(r'^(set|cmov|j)(' + '|'.join(c04.CC) + ')$', r'\1cc', inst['mn'])
+        x87i = inst['extra'] if inst['extra'].get('x87') else None
+        o0 = outputs(cpu0, undef, sse, x87i)
+        fam = ('x87:' + inst['mn']) if x87i else ('MMX-SSE:' + re.sub(r'(ps|pd|ss|sd)$', '#', inst['mn'])) if sse else re.sub(r'^(set|cmov|j)(' + '|'.join(c04.CC) + ')$', r'\1cc', inst['mn'])
         form = inst['form']
         if inst['mn'] in ('bt', 'bts', 'btr', 'btc'):
             form = '%s/%d' % (form, inst['size'])       # the 16-bit bit-string forms are known to be wrong; keep the 32-bit ones visible
@@ -261,14 +343,15 @@ def run_instances(sh, insts, nstates, seed):
                     v -= 1 << inst['size']
                 form += '/bit-offset:%s' % ('negative' if v < 0 else ('inside-operand' if v < inst['size'] else 'beyond-operand'))
         witnessed = 0
-        wit = {'text': inst['text'], 'code': g.hex(), 'regs': base['regs'], 'flags': base['flags'], 'hot': base['hot'].hex(), 'fp': [base['fp'][0].hex(), base['fp'][1].hex()] if base['fp'] else None}
+        wit = {'text': inst['text'], 'code': g.hex(), 'regs': base['regs'], 'flags': base['flags'], 'hot': base['hot'].hex(), 'fp': [base['fp'][0].hex(), base['fp'][1].hex()] if base['fp'] else None,
+               'x87': [base['x87'][0].hex(), base['x87'][1]] if base['x87'] else None}
         # --- read dependencies
         seen_keys = set()
         for j, (loc, st) in enumerate(perts):
             cpu1 = res[pos + 1 + j]
             if cpu1['status'] != 0:
                 continue
-            o1 = outputs(cpu1, undef, sse)
+            o1 = outputs(cpu1, undef, sse, x87i)
             dep = False
             for X in o0:
                 if X == 'mem':
@@ -288,6 +371,9 @@ def run_instances(sh, insts, nstates, seed):
                             a0, a1 = base['regs'][loc[4:]], st['regs'][loc[4:]]
                         elif loc.startswith('flag:'):
                             a0, a1 = base['flags'][loc[5:]], st['flags'][loc[5:]]
+                        elif loc.startswith('x87:'):
+                            i_ = int(loc[-1])
+                            a0, a1 = base['x87'][0][10 * i_:10 * i_ + 10], st['x87'][0][10 * i_:10 * i_ + 10]
                         elif loc.startswith('fp:'):
                             nm = loc[3:]
                             idx = int(nm[-1])
@@ -299,7 +385,9 @@ def run_instances(sh, insts, nstates, seed):
                             # untouched by the CPU. If the lifted semantics nevertheless assign this location, they have to
                             # read its old value to preserve it (e.g. the flags of a shift whose masked count is 0)
                             nm_ = loc.split(':', 1)[1]
-                            if not (loc.startswith(('reg:', 'flag:')) and nm_ in wid):
+                            if loc.startswith('x87:'):
+                                nm_ = 'float_' + nm_
+                            if not (loc.startswith(('reg:', 'flag:', 'x87:')) and nm_ in wid):
                                 continue
                     dep = True
                     break
@@ -312,10 +400,14 @@ def run_instances(sh, insts, nstates, seed):
                 ok = loc[5:] in rid
             elif loc.startswith('fp:'):
                 ok = loc[3:] in rid
+            elif loc.startswith('x87:'):
+                ok = ('float_' + loc[4:]) in rid
             else:
                 ok = covered(rmem, int(loc[4:]))
             if not ok:
                 lk = loc if not loc.startswith('mem:') else 'mem'
+                if loc.startswith('x87:st'):
+                    lk = 'x87:st0' if loc.endswith('0') else 'x87:stN'
                 key = '%s/%s/read-omitted/%s' % (fam, form if not sse else '*', lk if not sse else re.sub(r'\d', 'N', lk))
                 if key not in seen_keys:
                     seen_keys.add(key)
@@ -347,6 +439,27 @@ def run_instances(sh, insts, nstates, seed):
                         seen_keys.add(key)
                         sh.violation(key, '%s (%s): the CPU modifies memory at 0x%x, not covered by the written cells %s' % (inst['text'], g.hex(), hb + q, wmem[:4]), wit)
                     break
+        if x87i:
+            st_after, cc_after = x87_view(cpu0)
+            for i in range(8):
+                before_ = base['x87'][0][10 * i:10 * i + 10] if (base['x87'][1] >> i) & 1 else None
+                if st_after[i] is not None and st_after[i] != before_:
+                    witnessed += 1
+                    if 'float_st%d' % i not in wid:
+                        key = '%s/%s/write-omitted/x87:st%s' % (fam, form, 'N' if i else '0')
+                        if key not in seen_keys:
+                            seen_keys.add(key)
+                            sh.violation(key, '%s (%s): the CPU modifies ST(%d) (%r -> %r), float_st%d is not in the write set %s' % (
+                                inst['text'], g.hex(), i, O.from_f80(before_) if before_ else None, O.from_f80(st_after[i]), i, sorted(wid)), wit)
+            if x87i.get('cc'):
+                for cname, v_ in sorted(cc_after.items()):
+                    if v_ != 0:
+                        witnessed += 1
+                        if 'float_' + cname not in wid:
+                            key = '%s/%s/write-omitted/x87:%s' % (fam, form, cname)
+                            if key not in seen_keys:
+                                seen_keys.add(key)
+                                sh.violation(key, '%s (%s): the CPU sets %s, float_%s is not in the write set %s' % (inst['text'], g.hex(), cname.upper(), cname, sorted(wid)), wit)
         if sse:
             for i in range(8):
                 for nm, a, b in (('mm%d' % i, cpu0['mm'][8 * i:8 * i + 8], base['fp'][0][8 * i:8 * i + 8]), ('xmm%d' % i, cpu0['xmm'][16 * i:16 * i + 16], base['fp'][1][16 * i:16 * i + 16])):
@@ -366,11 +479,15 @@ NPARTS = 96
 
 
 def shards(tier, seed):
-    return [('int', p) for p in range(NPARTS)] + [('sse', p) for p in range(NPARTS)]
+    return [('int', p) for p in range(NPARTS)] + [('sse', p) for p in range(NPARTS)] + [('x87', p) for p in range(8)]
 
 
 def run_shard(shard, tier, seed):
     sh = common.Shard()
+    if shard[0] == 'x87':
+        insts = [x for j, x in enumerate(x87_instances()) if j % 8 == shard[1]]
+        run_instances(sh, insts, 6 if tier == 'quick' else 40, seed)
+        return sh
     table = c04.instances() if shard[0] == 'int' else sse_instances()
     insts = [x for j, x in enumerate(table) if j % NPARTS == shard[1]]
     run_instances(sh, insts, (4 if tier == 'quick' else 24) if shard[0] == 'int' else (2 if tier == 'quick' else 8), seed)
@@ -386,13 +503,13 @@ def main(tier, seed):
         return common.conclude(PROPERTY, tier, seed, common.Shard(), [], RULE % 4, ASSUMPTIONS, t0, inconclusive_reasons=[why])
     results, errors = common.pool_run(__name__, shards(tier, seed), tier, seed, deadline_s=1500 if tier == 'quick' else 4 * 3600, tag=PROPERTY)
     merged = common.merge(results)
-    cov = {'integer_instances': len(c04.instances()), 'sse_form_candidates': len(sse_instances()), 'host_cpu': c04.cpu_model()}
+    cov = {'integer_instances': len(c04.instances()), 'sse_form_candidates': len(sse_instances()), 'x87_instances': len(x87_instances()), 'host_cpu': c04.cpu_model()}
     return common.conclude(PROPERTY, tier, seed, merged, errors, RULE % (4 if tier == 'quick' else 24), ASSUMPTIONS, t0, extra_cov=cov)
 
 
 def replay(w):
     sh = common.Shard()
-    table = c04.instances() + sse_instances()
+    table = c04.instances() + sse_instances() + x87_instances()
     inst = [i for i in table if i['text'] == w['text']]
     if not inst:
         return []
